@@ -102,6 +102,33 @@ def place_variants(rng, refseq, n, kinds, gap, alphabet=BASES, allow_shiftable=F
     return out
 
 
+def twin_indels(rng, refseq, n, alphabet=BASES, margin=12):
+    """pairs of insertions (or deletions) 1-3 bp apart whose sequences are alike: the constellation of DESIGN §6 F11
+    (a read carrying only one of the two is re-aligned to a window in which the other one explains it as well)"""
+    out = []
+    pos = margin + rng.randrange(0, 6)
+    tries = 0
+    while len(out) < 2 * n and pos < len(refseq) - margin - 12 and tries < 80 * n + 100:
+        tries += 1
+        g = rng.choice([1, 2, 2, 3])
+        L = rng.choice([1, 2, 3, 4])
+        a1, a2 = refseq[pos], refseq[pos + g]
+        x = "".join(rng.choice(alphabet) for _ in range(L))
+        y = list(x)
+        if L > 1 and rng.random() < 0.7:
+            k = rng.randrange(L)
+            y[k] = rng.choice(alphabet)
+        y = "".join(y)
+        if x[-1] == a1 or y[-1] == a2:
+            pos += 1
+            continue
+        v1 = HVar(pos, a1, a1 + x, "ins", shiftable=(x[0] == refseq[pos + 1]))
+        v2 = HVar(pos + g, a2, a2 + y, "ins", shiftable=(y[0] == refseq[pos + g + 1]))
+        out += [v1, v2]
+        pos += g + 1 + 26 + rng.randrange(0, 20)
+    return out
+
+
 def columns(refseq, hvars, alleles):
     """hvars sorted by pos, non-overlapping. Returns (cols, spans) with spans[i] = (c0, c1) column range of hvars[i]"""
     cols, spans = [], []
@@ -278,8 +305,11 @@ class C06Scenario:
                 for p in cand:
                     if all(p.pos + len(p.ref) + 12 <= v.pos - OVERHANG or v.pos + len(v.ref) + OVERHANG + 12 <= p.pos for v in listed):
                         private.append(p)
-        else:  # "close": neighbours 1..9 bases apart, listed or private
-            gap = lambda: rng.choice([1, 1, 2, 2, 3, 4, 6, 9, 14, 30])
+        elif stream == "twins":
+            listed = twin_indels(rng, self.ref, rng.randrange(4, 10), alphabet)
+            private = []
+        else:  # "close": neighbours 0..14 bases apart, listed or private
+            gap = lambda: rng.choice([0, 1, 1, 2, 2, 3, 4, 6, 9, 14, 30])
             nv = rng.randrange(5, 16)
             allv = place_variants(rng, self.ref, nv, kinds, gap, alphabet, allow_shiftable)
             listed, private = [], []
